@@ -57,6 +57,25 @@ MISSED_FIRST = {   # round 2: not caught by the check as it stood; what was stre
     'C17_i': 'no scenario rendered an index after its add_index had been refused: added',
     'C17_j': 'a reference side was never the very list object `table.columns`: the interpreter now passes that list when a side lists exactly the columns of a table, and a scenario deletes one of them afterwards',
     'C18_j': 'first run: caught by the correspondence only (no-failing-input-found): the order clause is now also read off the emitted text (which CREATE TABLE carries a FOREIGN KEY clause, where its target is created) and compared edge by edge with the pinned model',
+    # round 6
+    'C02_k': 'first run: caught by the correspondence only (no-failing-input-found): name pools had no name in two Unicode normalisation forms: `café` composed and decomposed added to tables, columns, enums and notes (each must come back as written); now by the oracle with a concrete document',
+    'C02_l': 'the round trip never changed the kind of a reference after construction: `type` edits (to and from `<>`) on inline references before the round trip added',
+    'C03_k': 'first run: caught by the correspondence only (no-failing-input-found): document-level clause had no table name with braces next to column notes: added (outside the D5 domain a rendering failure of a parsed document is reported)',
+    'C03_l': 'index names were never the empty string: `name=\'\'` (edit and constructor) added to the API generator',
+    'C04_l': 'first run: caught by the correspondence only (no-failing-input-found): an unreadable DDL was charged to C03 only: it is now charged to C04 when the statement of a reference rendered on its own is already unreadable; comments made of the letters of `ALTER TABLE` / `CREATE` added; documents whose DDL cannot be read are failures, no longer skipped',
+    'C05_k': 'enum names never contained a dot: a quoted enum name `app.v1.status` used as a column type added',
+    'C05_l': 'no table declared two columns whose names differ only by Unicode normalisation form: twin pairs `état` composed / decomposed added (lookup by name must return the one asked for)',
+    'C08_l': 'the corpus of source strings had no text that is also a path: `.`, `..`, `/`, `pydbml`, the repository directory ... added (a str source is DBML text, never a file name)',
+    'C11_l': 'no document needed a feature that is consumed by its first use in a process: documents with multi-line type arguments etc. are now always also parsed first-thing in a fresh process and compared',
+    'C12_k': 'sources had no decomposed characters: added to the entry-point corpus (all routes must agree with `parse_file` on them)',
+    'C12_l': 'options were only passed by keyword to the class: positional and instance-level calls added (`PyDBML().parse`, `PyDBML.parse` with and without options must be the same function of their arguments)',
+    'C13_k': 'note texts had no decomposed / compatibility characters (`e\\u0301`, `\\u2126`, `\\u212b`, Hangul jamo): added — the stored text is the written text',
+    'C15_k': 'property values had no decomposed characters: added',
+    'C15_l': 'property values were never texts that look like literals of another kind: `true`, `False`, `NULL`, `42`, `1.5` added (a property value is a string and is written back as one)',
+    'C16_k': 'custom renderer classes always derived from `BaseRenderer`: classes deriving from the default DBML renderer with a partial registry of their own added (only the class\'s own registry counts)',
+    'C16_l': 'no scenario left a reference in the database after one of its tables had been deleted: added (every listed reference is rendered or refused, never skipped)',
+    'C06_k': 'first run: caught by the correspondence only (no-failing-input-found): no case declared a name only in another Unicode form / letter case than the one referred to: added for tables, groups and columns (must be rejected)',
+    'C07_k': 'first run: caught by the correspondence only (no-failing-input-found): fault list had no non-ASCII digits: fullwidth / Arabic-Indic digits as numbers added (must be rejected)',
 }
 
 def cell(t, n):
@@ -76,7 +95,8 @@ for mp in sorted(glob.glob(os.path.join(VERIF, 'seeded', '*', 'meta.json'))):
     else:
         res = '%s: NOT caught' % pid
     if name in MISSED_FIRST:
-        res = 'first run: missed — ' + MISSED_FIRST[name] + '; now ' + res
+        t = MISSED_FIRST[name]
+        res = (t if t.startswith('first run:') else 'first run: missed — ' + t) + '; now ' + res
     rows.append('| %s | %s | %s | %s |' % (name, cell(m.get('summary', ''), 110), cell(m.get('needs', ''), 90), res))
 table = '| seed | change | needs | result |\n|---|---|---|---|\n' + '\n'.join(rows) + '\n'
 p = os.path.join(VERIF, 'DESIGN.md')
